@@ -1,11 +1,12 @@
 #!/usr/bin/env python3
-"""Regenerate /verif/MANIFEST.json from tools/manifest_data.py (keeps it valid at all times)."""
+"""Regenerate /verif/MANIFEST.json from tools/manifest/Cxx.json (keeps it valid at all times)."""
 import json
 from pathlib import Path
 
-from manifest_data import CHECKS, PENDING_REASON
 
 V = Path(__file__).resolve().parent.parent
+CHECKS = {f.stem: json.loads(f.read_text()) for f in sorted((V / "tools" / "manifest").glob("C*.json"))}
+PENDING_REASON = {}
 props = [json.loads(l)["id"] for l in (V / "properties.jsonl").read_text().splitlines() if l.strip()]
 checks = []
 for pid in props:
